@@ -504,6 +504,17 @@ func (p *partition) newSubscribeLoop(ctx context.Context, groupID, consumerID st
 				}
 				return
 			}
+			// A stop offset which is no longer in the log (compacted or trimmed
+			// away) is never hit exactly, so also stop once it has been passed
+			// rather than delivering messages outside the requested range.
+			if stopOffset != waitForNewMessages && ((!reverse && offset > stopOffset) || (reverse && offset < stopOffset)) {
+				s := status.New(codes.ResourceExhausted, "Stop offset reached")
+				select {
+				case errCh <- s:
+				case <-cancel:
+				}
+				return
+			}
 			msgValue := m.Value()
 
 			headers := m.Headers()
